@@ -29,6 +29,10 @@ SAN_EXCEPTIONS = {
     # C19 defines Forth arithmetic as wrapping at the machine width; the repository's normal build gives
     # exactly that, and the reference interpreter checks the wrapped values instead.
     "src/libawkward/forth/ForthMachine.cpp": ["-fno-sanitize=signed-integer-overflow,shift"],
+    # sums and products of 64-bit integers wrap around like NumPy's (C03's reference model wraps the same way); the
+    # wrap itself is the documented result, not an out-of-bounds access
+    "src/cpu-kernels/awkward_reduce_prod.cpp": ["-fno-sanitize=signed-integer-overflow"],
+    "src/cpu-kernels/awkward_reduce_sum.cpp": ["-fno-sanitize=signed-integer-overflow"],
 }
 
 
